@@ -255,6 +255,16 @@ def ensure_hook():
 def guarded_eval(procs, managed, formula):
     """Sets and evaluates the formula under the audit monitor. Returns (outcome, app, events)."""
     ensure_hook()
+    if not _AUDIT.get('warm'):
+        # first use in this process (e.g. the replay of a saved input in the main process): the lazy imports of the
+        # harness and of supvisors.application must not be attributed to the formula
+        _AUDIT['warm'] = True
+        _AUDIT['active'] = False
+        try:
+            warm_app, _ = build(procs, managed, '"warm-up"')
+            warm_app.update()
+        except Exception:
+            pass
     # warm the regex cache paths etc. outside the monitored window is not possible in general: regex compilation is
     # allowed (sre_* imports happen at interpreter start)
     _AUDIT['events'] = []
